@@ -24,6 +24,9 @@ pub mod verif_seq_std {
     {}
 }
 pub use verif_seq_std::*;
+/// error values: payloads dropped by the extraction
+pub struct VerifError {}
+pub type Result<T> = core::result::Result<T, VerifError>;
 broadcast use verif_seq_std::axiom_user_id_key_model;
 use std::collections::HashMap;
 
@@ -163,6 +166,20 @@ pub open spec fn batch_inv(reqs: Seq<BatchUpdateRequest>, res: Seq<BatchUpdateRe
     &&& forall|i: int, j: int| 0 <= i < j < n && (#[trigger] reqs[i]).user_id == (#[trigger] reqs[j]).user_id && reqs[i].sequence == reqs[j].sequence
             ==> !(res[i].applied && res[j].applied)
 }
+
+/// every peer keeps its entry and its high-water mark
+pub open spec fn marks_kept(m0: Map<UserId, PeerCounter>, m1: Map<UserId, PeerCounter>) -> bool {
+    &&& forall|u: UserId| m1.contains_key(u) == m0.contains_key(u)
+    &&& forall|u: UserId| m0.contains_key(u) ==> (#[trigger] m1[u]).last_valid_sequence == m0[u].last_valid_sequence
+}
+/// Stands for the statement `for (_, peer_counter) in counters.iter_mut() { peer_counter.cleanup_old_sequences(cutoff_time); }`
+/// (HashMap::iter_mut loops are outside the Verus dialect; the extraction renames exactly that statement, pinned by
+/// its text). ASSUMED contract: every value is replaced by the result of PeerCounter::cleanup_old_sequences on it --
+/// whose own contract (keeps the high-water mark) is verified in this unit -- and no entry is added or removed.
+#[verifier::external_body]
+pub fn verif_cleanup_every_peer(counters: &mut HashMap<UserId, PeerCounter>, cutoff_time: u64)
+    ensures marks_kept(old(counters)@, final(counters)@),
+{ unimplemented!() }
 
 /// Same (peer, number) twice: by the contract of the critical section, the first acceptance sets last == n,
 /// and a submission is accepted only for last + 1, so the second one (in any later state, `last` never
